@@ -312,9 +312,17 @@ func init() {
 				run("explicit size {(1,1),(37,200),(200,37),(1000,1000)}: same attribute grid", ql, qf, qs, qi, [][2]int{{1, 1}, {37, 200}, {200, 37}, {1000, 1000}})
 				run("one-sided size {(37,-),(-,200)}: same attribute grid", ql, qf, qs, qi, [][2]int{{37, 0}, {0, 200}})
 			} else {
-				run("labels(8) x font{-,8,16,32,100} x styles(4) x icons(3) x dims{-,1,5,37,200,1000}^2",
-					sizeLabelOrder, []string{"-", "8", "16", "32", "100"}, []string{"plain", "bold", "italic", "bolditalic"}, []string{"none", "in", "out"},
-					sq([]int{0, 1, 5, 37, 200, 1000}))
+				tf := []string{"-", "8", "32", "100"}
+				ts := []string{"plain", "bold", "italic", "bolditalic"}
+				ti := []string{"none", "in", "out"}
+				vals := []int{1, 5, 37, 200, 1000}
+				var oneSided [][2]int
+				for _, v := range vals {
+					oneSided = append(oneSided, [2]int{v, 0}, [2]int{0, v})
+				}
+				run("automatic size: labels(8) x font{-,8,32,100} x styles(4) x icons(3)", sizeLabelOrder, tf, ts, ti, [][2]int{{0, 0}})
+				run("explicit size {1,5,37,200,1000}^2: same attribute grid", sizeLabelOrder, tf, ts, ti, sq(vals))
+				run("one-sided size {1,5,37,200,1000} on either axis: same attribute grid", sizeLabelOrder, tf, ts, ti, oneSided)
 			}
 			w.Count("dagre_calls", int64(dagreCalls))
 		},
